@@ -25,13 +25,17 @@ type Globals struct {
 	P          *Program
 	LangType   *types.Named
 	LangConst  []LangConst
+	LangOther  []LangConst            // unexported constants of the type (counts, bounds)
 	Lists      map[*ssa.Global]*ListV // []string globals with a literal of constants
 	ListOrder  []*ssa.Global
-	Vecs       map[*ssa.Global]*VecV // arrays/slices of constant integers
-	Init       map[*ssa.Global]AV    // value stored by the synthetic initialiser
-	Objs       State                 // contents of objects created by initialisers
-	MapBits    map[*ssa.Global]int64 // set by T3: lookup map -> width of its values
-	MapNonNil  map[*ssa.Global]bool  // set by T3: every read of the map variable comes after its construction (a fresh make): never nil
+	Vecs       map[*ssa.Global]*VecV       // arrays/slices of constant integers
+	Init       map[*ssa.Global]AV          // value stored by the synthetic initialiser
+	Objs       State                       // contents of objects created by initialisers
+	MapBits    map[*ssa.Global]int64       // set by T3: lookup map -> width of its values
+	PoolElem   map[*ssa.Global]types.Type  // sync.Pool variables used as typed free lists: the *T they hold
+	SentAlias  map[*ssa.Global]*ssa.Global // inner error variable → the exported sentinel declared from it (sentinelAliases)
+	SeamOK     map[*ssa.Global]bool        // function-valued variables assigned only by their declaration, address never taken
+	MapNonNil  map[*ssa.Global]bool        // set by T3: every read of the map variable comes after its construction (a fresh make): never nil
 	InitNotes  []string
 	InitEvents []Event
 	AllGlobals []*ssa.Global // globals of root + wordlist, sorted by name
@@ -53,6 +57,12 @@ func BuildGlobals(p *Program) *Globals {
 		for _, name := range sc.Names() {
 			if c, ok := sc.Lookup(name).(*types.Const); ok && types.Identical(c.Type(), g.LangType) {
 				if v, ok := constant.Int64Val(c.Val()); ok {
+					if !c.Exported() {
+						// not a language a caller can name (a count or bound kept next to the
+						// ten, `numLanguages`): no property quantifies over it
+						g.LangOther = append(g.LangOther, LangConst{name, v, c.Pos()})
+						continue
+					}
 					g.LangConst = append(g.LangConst, LangConst{name, v, c.Pos()})
 				}
 			}
@@ -91,7 +101,14 @@ func BuildGlobals(p *Program) *Globals {
 			}
 		}
 	}
-	for _, sp := range []*ssa.Package{p.Root, p.Words} {
+	libs := []*ssa.Package{p.Root, p.Words}
+	for _, pk := range p.Pkgs {
+		// the module's other library packages (a table or a sentinel kept in an internal package)
+		if sp := p.SSA.Package(pk.Types); sp != nil && sp != p.Root && sp != p.Words && sp != p.Gen && pk.Types.Name() != "main" && p.InModule(sp) {
+			libs = append(libs, sp)
+		}
+	}
+	for _, sp := range libs {
 		if sp == nil {
 			continue
 		}
@@ -108,6 +125,37 @@ func BuildGlobals(p *Program) *Globals {
 		}
 		return a.Name() < b.Name()
 	})
+	// the initialisers of the module's other library packages (a table or a sentinel kept in an
+	// internal package), in import order as go/packages lists them; the word-list package is
+	// read from its literals above and the generator comes last
+	nOther := 0
+	for _, pk := range p.Pkgs {
+		sp := p.SSA.Package(pk.Types)
+		if sp == nil || sp == p.Root || sp == p.Words || sp == p.Gen || pk.Types.Name() == "main" || !p.InModule(sp) {
+			continue
+		}
+		init := sp.Func("init")
+		if init == nil {
+			continue
+		}
+		nOther++
+		e := NewEval(p, g, &Ctx{Name: "init(" + pk.Types.Name() + ")"})
+		e.initMode = true
+		e.objs = 10000 + 500*nOther
+		e.Run(init)
+		for k, v := range e.GlobalInit {
+			if k.Pkg == sp {
+				if _, done := g.Init[k]; !done {
+					g.Init[k] = v
+				}
+			}
+		}
+		for k, v := range e.GlobalObj {
+			if _, done := g.Objs[k]; !done {
+				g.Objs[k] = v
+			}
+		}
+	}
 	// abstract evaluation of the root package's synthetic initialiser
 	if init := p.Root.Func("init"); init != nil {
 		e := NewEval(p, g, &Ctx{Name: "init"})
@@ -215,6 +263,19 @@ func (g *Globals) vecOf(e *Eval, gl *ssa.Global) *VecV {
 	return nil
 }
 
+// vecComplete: every element (and every field of an element) has a value.
+func vecComplete(v VecV) bool {
+	for _, el := range v.Elems {
+		if el == nil {
+			return false
+		}
+		if sv, ok := el.(VecV); ok && !vecComplete(sv) {
+			return false
+		}
+	}
+	return true
+}
+
 func (g *Globals) mapValueBits(gl *ssa.Global) int64 { return g.MapBits[gl] }
 
 // load gives the abstract value of reading module global gl.
@@ -228,6 +289,9 @@ func (g *Globals) load(e *Eval, gl *ssa.Global, t types.Type) AV {
 		return *v
 	}
 	if isErrorType(t) {
+		if r := g.SentAlias[gl]; r != nil {
+			return ErrV{Kind: ekSentinel, G: r}
+		}
 		return ErrV{Kind: ekSentinel, G: gl}
 	}
 	switch u := t.Underlying().(type) {
@@ -251,8 +315,21 @@ func (g *Globals) load(e *Eval, gl *ssa.Global, t types.Type) AV {
 			e.Relied[gl] = true
 			return pv
 		}
+	case *types.Signature:
+		// a function-valued variable (a seam for tests): the function its declaration assigns;
+		// that nothing else assigns it is what E1 checks for every variable relied upon
+		if fv, ok := g.Init[gl].(FuncV); ok && fv.Fn != nil && g.SeamOK[gl] {
+			e.Relied[gl] = true
+			return fv
+		}
 	case *types.Interface:
 		return GlobalValV{G: gl}
+	case *types.Array, *types.Struct:
+		// the whole value of a table its declaration builds (`for _, row := range table`)
+		if v, ok := g.Init[gl].(VecV); ok && vecComplete(v) {
+			e.Relied[gl] = true
+			return v
+		}
 	case *types.Basic:
 		if iv, ok := g.Init[gl]; ok {
 			e.Relied[gl] = true
